@@ -163,7 +163,19 @@ def _c01_async(o, driver, rng):
 
 PROPERTIES["C01"] = {"run": _sched(_mon("C01"), extra=_c01_async), "assumptions": SCHED_ASSUME}
 PROPERTIES["C02"] = {"run": _sched(_mon("C02"), extra=_fanin("C02")), "assumptions": SCHED_ASSUME + ["completeness is proved for runs that end (complete_at_end); that runs end is proved only as deadlock freedom for flat configurations (C05), otherwise monitor + correspondence"]}
-PROPERTIES["C05"] = {"run": _sched(_mon("C05"), extra=_both(_fanin("C05"), _replay_d7("C05"))), "assumptions": SCHED_ASSUME + ["deadlock freedom is a theorem for flat (group-less) configurations (hypotheses evaluated per scenario by the driver: wfx); for grouped configurations and for termination: monitor + correspondence only"]}
+def _c05_loops(o, driver, rng):
+    """Same-time loops around the bound in groups up to three levels deep, with the completion monitor: a loop that never settles
+    must end in the documented SimulationError, not in a run() that never returns (watchdog) or an internal error."""
+    import sched_corr as scorr
+    n_sc, n_sched = (40, 1) if o.tier == "quick" else (1500, 3)
+    scs = [scorr.gen_loop_scenario(rng) for _ in range(n_sc)]
+    res = scorr.run_sched_suite(driver, rng, n_sc, n_sched, name="loops", monitor=_mon("C05"), scenarios=scs)
+    o.suites.append(res)
+    o.violations.extend(res["violations"])
+    o.monitor_stats["loop_traces_monitored"] = res["traces"]
+
+
+PROPERTIES["C05"] = {"run": _sched(_mon("C05"), extra=_both(_fanin("C05"), _c05_loops, _replay_d7("C05"))), "assumptions": SCHED_ASSUME + ["deadlock freedom is a theorem for flat (group-less) configurations (hypotheses evaluated per scenario by the driver: wfx); for grouped configurations and for termination: monitor + correspondence only"]}
 def _c07_extra(o, driver, rng):
     """Diamond scenarios (several trigger paths of different delay) + the ancestor-table correspondence."""
     import sched_corr as scorr, suites_world as sw
